@@ -224,6 +224,7 @@ class ScriptedCurveFit:
         self.rec = dict(low=[float(v) for v in low], top=[float(v) for v in top], p0=[float(v) for v in p0],
                         sigma=None if sigma is None else [float(v) for v in np.asarray(sigma).ravel()],
                         absolute_sigma=absolute_sigma, xdata=[float(v) for v in np.asarray(xdata).ravel()],
+                        ydata=[float(v) for v in np.asarray(ydata).ravel()], max_nfev=max_nfev,
                         script=script, popt=popt, outs=outs, loss=loss, method=method, extra=sorted(kw))
         for pt in script:
             val = np.asarray(f(np.asarray(xdata), *pt), dtype=float)
@@ -382,9 +383,26 @@ def gen_case(rng, kinds=None):
         # which positions of the argument tuple must be powers of two (len_scale, beta, anis) for exact arithmetic
         return [pow2] * n
     fake = ScriptedCurveFit(rng, pow2_idx, mode)
+    # ---- curve_fit_kwargs: None, solver options, or a dict that still holds what an EARLIER call computed (the entries fit_variogram
+    #      owns: bounds, p0, xdata, ydata, f, loss, max_nfev, method).  Arguments are inputs: what curve_fit receives is decided by
+    #      THIS call (sigma / absolute_sigma are left out: a stale sigma with weights=None is the known finding FIT5).
+    cfk, cfk_desc = None, None
+    r = rng.rand()
+    if r < 0.15:
+        cfk = {"ftol": 1e-9}
+    elif r < 0.45:
+        k = int(rng.randint(1, 6))
+        stale = {"bounds": ([-7.0] * k, [7.0] * k), "p0": [0.5] * k, "xdata": np.array([9.0, 9.5]), "ydata": np.array([1.0, 2.0]),
+                 "loss": "cauchy", "max_nfev": 3, "method": "lm", "f": (lambda xx, *a: np.zeros(len(xx)) + 123.0)}
+        cfk = {"ftol": 1e-9}
+        for key in sorted(stale):
+            if rng.rand() < 0.7:
+                cfk[key] = stale[key]
+    if cfk is not None:
+        cfk_desc = sorted(cfk)
     desc = dict(cls=meta["cls"], kind=kind, dim=dim, latlon=meta["latlon"], state=st0, sel={k: (v if isinstance(v, bool) else float(v)) for k, v in sel.items()},
                 sill=sill, anis=anis, init_guess=ig if not isinstance(ig, dict) else dict(ig), x=x.tolist(), y=y.tolist(),
-                y_shape=list(np.shape(y_arg)), weights=("callable" if callable(weights) else (weights if weights is None or isinstance(weights, str) else weights.tolist())),
+                curve_fit_kwargs=cfk_desc, y_shape=list(np.shape(y_arg)), weights=("callable" if callable(weights) else (weights if weights is None or isinstance(weights, str) else weights.tolist())),
                 method=method, mode=mode, bounds={k: list(v) for k, v in b.items()}, rescale=float(m.rescale))
     orig = fitmod.curve_fit
     fitmod.curve_fit = fake
@@ -394,7 +412,7 @@ def gen_case(rng, kinds=None):
             warnings.simplefilter("ignore")
             try:
                 ret = m.fit_variogram(x, y_arg, anis=anis, sill=sill, init_guess=(dict(ig) if isinstance(ig, dict) else ig),
-                                      weights=weights, method=method, return_r2=True, **dict(sel))
+                                      weights=weights, method=method, return_r2=True, curve_fit_kwargs=cfk, **dict(sel))
                 py["ok"] = True
                 d = ret[0]
                 py["dict"] = {k: (np.asarray(v, dtype=float).ravel().tolist()) for k, v in d.items()}
@@ -407,6 +425,10 @@ def gen_case(rng, kinds=None):
     finally:
         fitmod.curve_fit = orig
     py["rec"] = fake.rec
+    py["y_flat"] = [float(v) for v in np.asarray(y).ravel()]
+    py["method"] = method
+    py["stale_kwargs"] = cfk_desc is not None and len(cfk_desc) > 1
+    py["user_options"] = ["ftol"] if cfk_desc is not None else []
     desc["script"] = None if fake.rec is None else fake.rec["script"]
     desc["popt"] = None if fake.rec is None else fake.rec["popt"]
     # the Lean op: x as the code prepares it for a lat-lon model (chordal distances), raw otherwise
@@ -485,6 +507,15 @@ def compare(op, py, lean, meta, opt_names):
         diffs.append("absolute_sigma not set with weights")
     if not cmpx(rec["xdata"], lean["xdata"]):
         diffs.append("xdata handed to curve_fit")
+    # the remaining arguments fit_variogram owns: decided by this call, never by what the caller's dict held before
+    if rec.get("ydata") != py.get("y_flat"):
+        diffs.append("ydata handed to curve_fit")
+    if rec.get("loss") != "soft_l1" or rec.get("method") != py.get("method") or rec.get("max_nfev") is not None:
+        diffs.append("loss / method / max_nfev handed to curve_fit")
+    if rec.get("extra") != py.get("user_options", []):
+        diffs.append("caller's solver options not handed on to curve_fit unchanged")
+    if meta is not None and py.get("stale_kwargs"):
+        meta["stale_kwargs"] = 1
     # curve values
     if meta["kind"] in ("linear", "tent", "factent"):
         if len(rec["outs"]) != len(lean["outs"]):
@@ -565,6 +596,8 @@ def correspondence(ctx):
         dist["curve-values:compared-within-1e-12"] = dist.get("curve-values:compared-within-1e-12", 0) + meta.get("outs_tol", 0)
         if meta.get("var_tol"):
             bump("state:var-compared-within-1e-13")
+        bump("curve_fit_kwargs:" + ("None" if desc.get("curve_fit_kwargs") is None else "options" if len(desc["curve_fit_kwargs"]) == 1
+                                    else "holding-entries-of-an-earlier-call"))
         bump("kind:" + meta["kind"])
         bump("class:" + meta["cls"])
         bump("dim:%d%s" % (desc["dim"], "-latlon" if meta["latlon"] else ""))
@@ -591,7 +624,8 @@ def correspondence(ctx):
                                   "model": lean, "rec": py["rec"]})
     return {"evaluations": n, "distinct_nontrivial": len(seen),
             "rule": "random model class/dim/state/bounds x para_select (fit / deselect / fixed, random keyword order) x sill (None/True/False/value) "
-                    "x anis (fit / off / fixed) x data (isotropic / directional / wrong size / lat-lon) x init_guess modes x weights x method, "
+                    "x anis (fit / off / fixed) x data (isotropic / directional / wrong size / lat-lon) x init_guess modes x weights x method "
+                    "x curve_fit_kwargs (None / solver options / a dict still holding bounds, p0, xdata, ydata, f, loss, max_nfev, method of an earlier call), "
                     "curve_fit replaced by a scripted optimiser; distinct = different (class kind, dim, latlon, fitted set, sill constraint, "
                     "directional, anis fitted, last-evaluation-is-popt, init-guess mode, weights) among successful runs with at least one curve evaluation",
             "samples": samples, "disagreements": disagreements[:10], "distribution": dist}
@@ -1082,11 +1116,185 @@ def directed(ctx, viol, stats):
     return ev
 
 
+# ---------------------------------------------------------------------------------------------- arguments are inputs, not state
+SHARED_CLASSES = ["Exponential", "Gaussian", "Spherical", "Cubic", "Circular", "Linear", "Stable", "Matern", "Rational"]
+# settings of one call: name -> (para_select, uses sill, names of fitted parameters in curve_fit order)
+SHARED_SETTINGS = ["sill", "nugget-off", "nugget-fixed", "var-off", "len-off", "all", "sill+len-off"]
+
+
+def _plain_fit(model, x, y, **kw):
+    """one real fit (real scipy, nothing replaced); exceptions are canonicalised results"""
+    with warnings.catch_warnings():
+        warnings.simplefilter("ignore")
+        try:
+            para, pcov, r2 = model.fit_variogram(x, y, return_r2=True, **kw)
+            return {"ok": True, "para": {k: np.asarray(v, float).ravel().tolist() for k, v in para.items()},
+                    "pcov": np.asarray(pcov, float), "r2": float(r2), "state": snapshot(model)}
+        except Exception as e:  # noqa
+            return {"ok": False, "err": f"{type(e).__name__}: {str(e)[:120]}"}
+
+
+def _same_fit(a, b):
+    if a["ok"] != b["ok"]:
+        return False
+    if not a["ok"]:
+        return a["err"] == b["err"]
+    return a["para"] == b["para"] and a["state"] == b["state"] and (a["r2"] == b["r2"] or (np.isnan(a["r2"]) and np.isnan(b["r2"]))) \
+        and a["pcov"].shape == b["pcov"].shape and np.array_equal(a["pcov"], b["pcov"], equal_nan=True)
+
+
+def _brief(r):
+    return {k: v for k, v in r.items() if k != "pcov"}
+
+
+def gen_shared_sequence(rng, share):
+    """pure description of a sequence of 2-4 fit_variogram calls that share one argument object"""
+    kw_pool = [{"ftol": 1e-12, "xtol": 1e-12, "gtol": 1e-12}, {}, {"ftol": 1e-10}, {"x_scale": "jac"}, {"xtol": 1e-13, "verbose": 0}]
+    nb = int(rng.randint(8, 17))
+    seq = dict(shared=share, nb=nb, x_max=float(rng.uniform(8.0, 14.0)), curve_fit_kwargs=dict(kw_pool[int(rng.randint(len(kw_pool)))]))
+    if rng.rand() < 0.5:
+        ig = {"default": "current"}
+    else:
+        ig = {"default": str(rng.choice(["default", "current"])), "len_scale": float(rng.uniform(1.5, 4.0))}
+        if rng.rand() < 0.5:
+            ig["var"] = float(rng.uniform(0.8, 2.0))
+    seq["init_guess"] = ig
+    seq["weights_array"] = (1.0 / (1.0 + np.arange(nb))).tolist() if rng.rand() < 0.6 else rng.uniform(0.5, 2.0, size=nb).tolist()
+    seq["same_y"] = bool(rng.rand() < 0.35)
+    equal_count = rng.rand() < 0.75
+    calls = []
+    for i in range(int(rng.randint(2, 5))):
+        setting = str(rng.choice(SHARED_SETTINGS[:4] if equal_count else SHARED_SETTINGS))
+        truth = dict(var=float(rng.uniform(0.5, 3.0)), len_scale=float(rng.uniform(1.0, 4.0)), nugget=float(rng.choice([0.0, 0.25, 0.5, 1.0])))
+        start = {k: v * float(1 + rng.uniform(-0.1, 0.1)) for k, v in truth.items()}
+        sel, sill = {}, None
+        if setting in ("sill", "sill+len-off"):
+            sill = truth["var"] + truth["nugget"]
+            if setting == "sill+len-off":
+                sel["len_scale"] = False; start["len_scale"] = truth["len_scale"]
+        elif setting == "nugget-off":
+            sel["nugget"] = False; start["nugget"] = truth["nugget"]
+        elif setting == "nugget-fixed":
+            sel["nugget"] = truth["nugget"]
+        elif setting == "var-off":
+            sel["var"] = False; start["var"] = truth["var"]
+        elif setting == "len-off":
+            sel["len_scale"] = False; start["len_scale"] = truth["len_scale"]
+        calls.append(dict(cls=str(rng.choice(SHARED_CLASSES)), dim=int(rng.randint(1, 4)), setting=setting, sel=sel, sill=sill, start=start, truth=truth,
+                          weights=str(rng.choice(["none", "none", "array", "inv"])) if share != "arrays" else str(rng.choice(["array", "array", "none"])),
+                          method=str(rng.choice(["trf", "trf", "dogbox"])), loss=str(rng.choice(["soft_l1", "linear"]))))
+    seq["calls"] = calls
+    return seq
+
+
+def run_shared_sequence(seq, viol, stats):
+    """execute a described sequence on the real code: shared object unchanged after every call, every fit identical to the fit with
+    fresh copies of the original arguments"""
+    import copy
+    import gstools as gs
+    share, nb = seq["shared"], seq["nb"]
+    x = np.linspace(0.4, seq["x_max"], nb)
+    K0, IG0, W0 = copy.deepcopy(seq["curve_fit_kwargs"]), copy.deepcopy(seq["init_guess"]), np.asarray(seq["weights_array"], float)
+    K, IG, W, X = copy.deepcopy(K0), copy.deepcopy(IG0), W0.copy(), x.copy()
+    Y, ev = None, 0
+    for i, c in enumerate(seq["calls"]):
+        cls_name, dim, start, wmode = c["cls"], c["dim"], c["start"], c["weights"]
+        with warnings.catch_warnings():
+            warnings.simplefilter("ignore")
+            probe = getattr(gs, cls_name)(dim=dim, **c["truth"])
+        sel = dict(c["sel"])
+        for o in probe.opt_arg:
+            sel[o] = False                                 # shape parameters stay at the class default
+        if Y is None or not seq["same_y"]:
+            Y = np.array(probe.variogram(x), dtype=float)
+
+        def make():
+            with warnings.catch_warnings():
+                warnings.simplefilter("ignore")
+                return getattr(gs, cls_name)(dim=dim, **start)
+        y0 = Y.copy()
+        shared_kw = dict(curve_fit_kwargs=K if share == "curve_fit_kwargs" else copy.deepcopy(K0),
+                         init_guess=IG if share == "init_guess-dict" else copy.deepcopy(IG0),
+                         weights={"none": None, "inv": "inv", "array": W if share == "arrays" else W0.copy()}[wmode])
+        fresh_kw = dict(curve_fit_kwargs=copy.deepcopy(K0), init_guess=copy.deepcopy(IG0),
+                        weights={"none": None, "inv": "inv", "array": W0.copy()}[wmode])
+        common = dict(sill=c["sill"], method=c["method"], loss=c["loss"], **sel)
+        stale_sigma = share == "curve_fit_kwargs" and wmode == "none" and "sigma" in K
+        ig_before = copy.deepcopy(IG)
+        got = _plain_fit(make(), X if share == "arrays" else x.copy(), Y if share == "arrays" else y0.copy(), **shared_kw, **common)
+        want = _plain_fit(make(), x.copy(), y0.copy(), **fresh_kw, **common)
+        ev += 2
+        case = dict(stratum="shared-arguments", call_index=i, sequence=seq)
+        stats["shared:" + share] = stats.get("shared:" + share, 0) + 1
+        # --- the shared objects are inputs: unchanged after the call
+        if share == "curve_fit_kwargs":
+            changed = [k for k in K0 if k not in K or K[k] != K0[k]]
+            added = sorted(set(K) - set(K0))
+            if changed:
+                viol.append({"key": "fit:caller-args:curve_fit_kwargs:user-entry-changed", "what": f"entries {changed} of the caller's curve_fit_kwargs "
+                             "dict were changed by fit_variogram", "case": case})
+            if added:
+                viol.append({"key": "fit:caller-args:curve_fit_kwargs:keys-added", "what": f"fit_variogram wrote the entries {added} into the caller's "
+                             "curve_fit_kwargs dict", "case": case})
+        elif share == "init_guess-dict":
+            if IG != ig_before:
+                show = lambda d: {k: (v if not isinstance(v, list) else [float(a) for a in v]) for k, v in d.items()}   # noqa: E731
+                viol.append({"key": "fit:caller-args:init_guess-dict:modified", "what": "fit_variogram changed the caller's init_guess dict: "
+                             f"{show(ig_before)} -> {show(IG)}", "case": case})
+        else:
+            for nme, a, a0 in (("x", X, x), ("y", Y, y0), ("weights", W, W0)):
+                if not (a.shape == a0.shape and np.array_equal(a, a0, equal_nan=True)):
+                    viol.append({"key": "fit:caller-args:array-modified:" + nme, "what": f"fit_variogram changed the caller's {nme} array", "case": case})
+            X, W, Y = x.copy(), W0.copy(), y0.copy()       # a changed array does not count twice
+        # --- and the fit is the fit with fresh copies
+        if not _same_fit(got, want):
+            if share == "curve_fit_kwargs":
+                key = "fit:shared:curve_fit_kwargs:stale-sigma" if stale_sigma else "fit:shared:curve_fit_kwargs:result-differs"
+            elif share == "init_guess-dict":
+                key = "fit:shared:init_guess-dict:result-differs"
+            else:
+                key = "fit:shared:arrays:result-differs"
+            viol.append({"key": key, "what": f"call {i + 1} of a sequence of fit_variogram calls that were handed the same {share} object differs from the "
+                         "same call with fresh copies of the original arguments (an earlier call left state in the caller's object)"
+                         + (" — the sigma of an earlier weighted call is still in the dict" if stale_sigma else ""),
+                         "case": case, "got": _brief(got), "want": _brief(want)})
+        elif want["ok"] and c["setting"] != "all" and not seq["same_y"] and wmode == "none" and IG0 == {"default": "current"}:
+            stats["shared:recovery-cases"] = stats.get("shared:recovery-cases", 0) + 1
+            stats["shared:min-r2"] = min(stats.get("shared:min-r2", 1.0), got["r2"])
+    return ev
+
+
+def shared_args_search(ctx, n, viol, stats):
+    """the same argument OBJECTS handed to several successive fit_variogram calls (different model classes and dimensions, different
+    sill / nugget / selection settings, mostly with the same number of fitted parameters): one of {curve_fit_kwargs dict (solver
+    tolerances, also an empty dict), init_guess dict, the x / y / weights arrays} is shared along a sequence of 2-4 calls, everything
+    else is fresh.  After every call the shared object must be unchanged, and the fit (parameters, pcov, r2, model state or the
+    exception) must be identical to the fit with fresh copies of the original arguments."""
+    rng = np.random.RandomState(ctx.seed + 3030)
+    ev = 0
+    for t in range(n):
+        seq = gen_shared_sequence(rng, ["curve_fit_kwargs", "curve_fit_kwargs", "init_guess-dict", "arrays"][t % 4])
+        ev += run_shared_sequence(seq, viol, stats)
+    return ev
+
+
 def replay(ctx, payload):
     """re-run the recorded failing inputs (real scipy) against the current tree"""
     bad = 0
     for v in payload.get("violations", []):
         cfg = v.get("case", {})
+        if cfg.get("stratum") == "shared-arguments":
+            viol, stats = [], {}
+            run_shared_sequence(cfg["sequence"], viol, stats)
+            keys = sorted(set(x["key"] for x in viol))
+            print(f"replay {v['key']}: now reports {keys}")
+            for x in viol:
+                if x["key"] == v["key"]:
+                    print("   ", x["what"][:300], {k: x[k] for k in ("got", "want") if k in x})
+                    break
+            if v["key"] in keys:
+                bad += 1
+            continue
         if "start" not in cfg or "sel" not in cfg:
             print("replay: case not re-executable:", v.get("key"))
             continue
@@ -1110,6 +1318,7 @@ def search(ctx, deep=False):
     ev = directed(ctx, viol, stats)
     n = ctx.scale(510, 6800) * (3 if deep else 1)
     ev += real_search(ctx, n, viol, stats)
+    ev += shared_args_search(ctx, ctx.scale(48, 400) * (3 if deep else 1), viol, stats)
     noconv = stats.pop("_noconv", [])
     if len(noconv) > max(3, 0.05 * stats.get("recovery-cases", 0)):
         viol.append({"key": "fit:no-convergence:rate", "what": f"curve_fit gave up (max_nfev) on {len(noconv)} noise-free fits started near the truth "
@@ -1123,7 +1332,9 @@ def search(ctx, deep=False):
     counts = {}
     for v in viol:
         counts[v["key"]] = counts.get(v["key"], 0) + 1
-    return {"evaluations": ev, "violations": out[:12], "counts": counts,
+    return {"evaluations": ev, "violations": out[:16], "counts": counts,
             "summary": f"{ev} real scipy fits ({len(SEARCH_CLASSES)} classes, isotropic/directional/lat-lon, noise-free and noisy): dict==model, untouched, "
-                       f"sill identity, bounds, r2 of final model, recovery of curve/parameters; violation keys: {counts}; stats: "
+                       f"sill identity, bounds, r2 of final model, recovery of curve/parameters; "
+                       f"sequences of 2-4 calls sharing one argument object (curve_fit_kwargs dict / init_guess dict / x, y, weights arrays): object unchanged and fit "
+                       f"identical to the fit with fresh copies; violation keys: {counts}; stats: "
                        + ", ".join(f"{k}={v}" for k, v in sorted(stats.items()) if not k.startswith("class:"))}
